@@ -144,3 +144,42 @@ def run_finaliser(prog, ctx=None):
     if nstores < 5:
         raise Broken("FINALISER: only %d handler slot stores found" % nstores)
     return res
+
+
+def run_finiall(prog, ctx=None):
+    """FINIALL: the teardown loops that notify every handler (mpt_command_clear, the traits finaliser) leave the loop only on
+    the index bound: an exit that depends on the content of a slot (first empty slot ends the walk) skips the handlers behind it"""
+    from .rules_path import natural_loops
+    res = Result("FINIALL")
+    SLOT_RECORDS.clear()
+    SLOT_RECORDS.update(slot_records(prog))
+    n = 0
+    for name in ("mpt_command_clear", "_command_fini"):
+        h = prog.func(name)
+        if h is None:
+            raise Broken("anchor missing: " + name)
+        loops = natural_loops(h)
+        calls = [(b, e) for b, i, e in h.elements() if e.get("k") == "call" and e.get("callee") is not None and _is_cmd_mem(strip(e["callee"], all_casts=True))]
+        for b, e in calls:
+            heads = [hd for hd, body in loops.items() if b.id in body]
+            if not heads:
+                continue          # a single element is finalised (traits finaliser of one slot)
+            body = min((loops[hd] for hd in heads), key=len)
+            bad = None
+            for bid in body:
+                blk = h.blocks[bid]
+                if any(s is not None and s not in body for s in blk.succ) and blk.term and blk.term.get("cond") is not None:
+                    # the operand deciding at this block
+                    c = blk.term["cond"]
+                    cs = strip(c, all_casts=True)
+                    while blk.term.get("cls") != "BinaryOperator" and cs.get("k") == "bin" and cs.get("op") in ("&&", "||"):
+                        cs = strip(cs["b"], all_casts=True)
+                    for x in walk(cs):
+                        if x.get("k") == "mem" and x.get("rec", "") in SLOT_RECORDS:
+                            bad = (blk, cs)
+            n += 1
+            res.ob("%s:walk ends on the bound only" % name, bad is None, h, (bad[1].get("l") if bad else h.line) or h.line,
+                   "" if bad is None else "the loop that notifies the handlers is left on `%s`: handlers behind such a slot get no end-of-life call" % norm(show(bad[1], h)))
+    if n < 1:
+        raise Broken("FINIALL: no notifying loop found")
+    return res
